@@ -100,13 +100,14 @@ reg("C14", "Hypothesis inputs x SIGKILL before every output-file write (LD_PRELO
     "over a valid image); rdsquashfs -l/-d, sqfs2tar (ASan) and the independent parser must either all reject the leftover file or all read "
     "exactly the complete image.", "Models process death with ordered page cache, not power loss; single kill per run.", "DESIGN.md 4/C14")
 
-reg("C02", "Hypothesis inputs x (-j, -Q, schedule perturbation shim, environment) vs serial build; ThreadSanitizer sample", "exploration",
-    "differential against the NO_THREAD_IMPL serial build + metamorphic over -j/-Q/schedule perturbation/environment; TSan on a sample",
+reg("C02", "Hypothesis inputs x (-j, -Q, -X, schedule perturbation shim, environment) vs serial build; ThreadSanitizer sample; block processor under the controlled scheduler", "exploration",
+    "differential against the NO_THREAD_IMPL serial build + metamorphic over -j/-Q/schedule perturbation/environment; TSan on a sample; "
+    "schedule enumeration (0 and 1 preemptions) of the block processor on the controlled scheduler with a read-back + digest oracle",
     "Inputs with many data and fragment blocks are packed by gensquashfs / tar2sqfs with -j 1..64 and default, -Q 1..10^4, seeded yields and "
     "sleeps around every mutex/condvar operation of the worker pool (LD_PRELOAD), different TZ/locale/umask/HOME/cwd and a fake wall clock; "
     "every image must equal the serial build's image byte for byte; one ThreadSanitizer run per case must be free of race reports.",
-    "Real-thread perturbation samples interleavings; the exhaustive part is C09's controlled scheduler. SOURCE_DATE_EPOCH and the command line "
-    "are inputs.", "DESIGN.md 4/C02")
+    "Real-thread perturbation samples interleavings; the controlled scheduler enumerates them for small block processor programs at the "
+    "granularity of the pool's mutex/condvar operations. SOURCE_DATE_EPOCH and the command line are inputs.", "DESIGN.md 4/C02, 8.2")
 reg("C08", "Hypothesis content multisets -> gensquashfs built with a 2..8 bit checksum -> independent parser", "exploration",
     "property-based read-back under forced checksum collisions (link-time weakened hash), both directions of the dedup property",
     "The block checksum is cut to 2-8 bits at link time so that many distinct blocks and tails of equal size collide; generated multisets of "
